@@ -143,6 +143,15 @@ def verus_phase(pid, P, tier, seed, t0):
         raise Undecided('assume()/admit() present in generated file: %r' % scan)
     r = run_verus(path, rlimit=P.get('rlimit', 60))
     j = r['json']
+    drifted = [f['key'] for f in em.functions if f['drift_tokens']]
+    if drifted and j is not None and not j['verification-results'].get('verified') and any(
+            d.get('level') == 'error' and classify(d) is None and not d['message'].startswith('aborting') for d in r['diags']):
+        # the source of some contracted items changed and the file does not compile with their proof hints (e.g. a hint
+        # names a variable that no longer exists): retry with the body-level hints of the changed items dropped
+        text, line_map, em, entries = tool.generate(set(units), no_body_hints=set(drifted))
+        open(path, 'w').write(text)
+        r = run_verus(path, rlimit=P.get('rlimit', 60))
+        j = r['json']
     if r['rc'] == 124:
         raise Undecided('verus timeout')
     if j is None:
